@@ -527,6 +527,23 @@ impl Model {
                             }
                             // While a reorg is half-way (blocks disconnected, none connected yet) the chain update has not been
                             // processed: the statement only binds once it has.
+                            // Derived from "forgotten ... when, and only when, buried 100 deep": once the block holding the
+                            // penalty has been delivered, the tracker must be recorded as confirmed there (that row is what the
+                            // completion is computed from).
+                            if check_confirmed && !self.reorg_pending && !t.confirmed {
+                                if let Some(hc) = rec.conf {
+                                    if self.height_in_shown(node, &p.compute_txid()) == Some(hc) {
+                                        out.push(viol(
+                                            "C04",
+                                            "confirmation_not_recorded",
+                                            format!(
+                                                "{at}: penalty of (user {}, dispute {}) sits in block {hc} of the chain the tower was shown, but its tracker is still recorded as unconfirmed (since {})",
+                                                k.0, k.1, t.height
+                                            ),
+                                        ));
+                                    }
+                                }
+                            }
                             if check_confirmed && t.confirmed && !self.reorg_pending {
                                 let truth = self.height_in_shown(node, &p.compute_txid());
                                 if truth != Some(t.height) {
